@@ -8,7 +8,7 @@
    (2) the root document of every descendant validator is the outermost document;
    (3) bubbling edits schema paths only; (4) every error beneath a field carries the field's document path. *)
 From Coq Require Import List ZArith String Bool.
-From Cerb Require Import Values PyOps Errors Tree Facts SpecFacts FactsOk Pool Validate ChildProofs PathProofs Current.
+From Cerb Require Import Values PyOps Errors Tree Facts SpecFacts FactsOk Pool Validate Worklist Normalize ChildProofs PathProofs Current.
 Import ListNotations.
 Open Scope list_scope.
 
@@ -125,3 +125,22 @@ Example C10_example :
   | _, _ => False
   end.
 Proof. vm_compute. reflexivity. Qed.
+
+
+(* A recorded finding, as a witness on the model (which follows the implementation): WITH normalization on, a read-only
+   violation stops the field's remaining rules at the root -- the validation pass finds the error that normalization filed --
+   but not in a sub-document, whose child validator starts from an empty error list: nested, the type error (code 0x24) is
+   reported beside the read-only error; the sub-document on its own reports the read-only error alone. *)
+Example C10_refuted_readonly_in_a_sub_document_with_normalization :
+  let cfg := {| c_allow_unknown := VBool false; c_require_all := false; c_ignore_none := false; c_purge_unknown := false;
+                c_purge_readonly := false; c_is_child := false; c_is_normalized := false; c_root_doc := VNone;
+                c_rules_reg := []; c_schema_reg := [] |} in
+  let sub := [(KStr "b", VDict [(KStr "readonly", VBool true); (KStr "type", VStr "string")])] in
+  let nested := [(KStr "a", VDict [(KStr "type", VStr "dict"); (KStr "schema", VDict sub)])] in
+  let codes r := match r with Ok o => map e_code (flatten (f_masks current) (out_errs o)) | _ => [] end in
+  let has c l := existsb (Z.eqb c) l in
+  has 36%Z (codes (api_validate current 8 cfg nested [(KStr "a", VDict [(KStr "b", VInt 1)])] false true)) = true /\
+  has 99%Z (codes (api_validate current 8 cfg nested [(KStr "a", VDict [(KStr "b", VInt 1)])] false true)) = true /\
+  has 36%Z (codes (api_validate current 8 cfg sub [(KStr "b", VInt 1)] false true)) = false /\
+  has 99%Z (codes (api_validate current 8 cfg sub [(KStr "b", VInt 1)] false true)) = true.
+Proof. vm_compute. repeat split; reflexivity. Qed.
